@@ -4,8 +4,11 @@ from vlib.scn import Scenario, h
 from checks import docs
 
 ID = "C17"
-LEAN_MODULES = ["Econf.Props.C17"]
-THEOREMS = ["Econf.C17_line", "Econf.C17_comment_block", "Econf.C17_comment_block_first", "Econf.C17_trailing", "Econf.C17_values_plain", "Econf.C17_values_quoted", "Econf.C17_path_single", "Econf.C17_path_merged", "Econf.C02_parse_render"]
+LEAN_MODULES = ["Econf.Props.C17", "Econf.Props.Leaf"]
+THEOREMS = ["Econf.C17_line", "Econf.C17_comment_block", "Econf.C17_comment_block_first", "Econf.C17_trailing", "Econf.C17_values_plain", "Econf.C17_values_quoted", "Econf.C17_path_single", "Econf.C17_path_merged", "Econf.C02_parse_render",
+            "Leaf.C_trim", "Leaf.C_ltrim", "Leaf.trim_eq", "Leaf.spc_eq"]
+# string helpers translated from the C source on every run (gen/c2lean.py); theorems in lean/Econf/Props/Leaf.lean
+LEAF_FNS = ["ltrim", "rtrim", "trim"]
 RULE = ("conventional documents with comment blocks, trailing comments and multi-line values over-represented, read by absolute name, "
         "by relative names (after chdir) and through a symbolic link; every key's extended value and the path query are compared with "
         "the document; a merged result (econf_mergeFiles, and a layered read of the document plus one or two drop-ins, some without entries) must report the empty path; distinct by (content, sets, way of naming the file)")
